@@ -49,12 +49,19 @@ class C13(Prop):
             widths.append(nw)
         w = rng.choice(widths) if dk == "boxcar" else rng.randint(1, 6)
         pos = rng.choice(("start", "end", "inside"))
-        s = {"start": 0, "end": n - w, "inside": rng.randint(1, n - w - 1)}[pos]
+        w = max(1, min(w, n - 1))
+        if n - w - 1 < 1 and pos == "inside":
+            pos = "start"
+        s = {"start": 0, "end": n - w, "inside": rng.randint(1, max(1, n - w - 1))}[pos]
         c = {"n": n, "kind": kind if dk != "boxcar" else "boxcar", "nbmax": nbmax, "sf": sf, "dkind": dk, "start": s,
              "width": w, "dseed": rng.randrange(1 << 30), "a": 1.0, "b": 0.0}
         if rng.random() < 0.3 and dk != "boxcar":   # a noiseless boxcar has zero IQR: unit-scale fallback, not invariant
             c["a"] = rng.choice((0.25, 2.0, 8.0))
-            c["b"] = rng.choice((-16.0, 3.0, 100.0))
+            # offsets up to ~1e5 times the spread (exact in float32: integer data on a 2**21 / 2**22 baseline): the
+            # zero-scale guard must not mistake a large baseline for a vanishing scale
+            c["b"] = rng.choice((-16.0, 3.0, 100.0, 2.0 ** 21, -(2.0 ** 22)))
+            if abs(c["b"]) > 1e6:
+                c["a"] = rng.choice((1.0, 2.0, 8.0))      # a*x stays integer: the shifted series is exact in float32
         return c
 
     @staticmethod
